@@ -12,7 +12,7 @@ META = {
 
 def run(ctx):
     return mworld.run_family(
-        ctx, "C38", scenarios=[2, 3, 8], impls=['basicmutable', 'overlay-basic', 'overlay-mutable', 'overlay-empty'],
+        ctx, "C38", scenarios=[2, 3, 8], impls=['basicmutable', 'overlay-basic', 'overlay-mutable', 'overlay-empty', 'overlay-compact'],
         sections=['mutate'],
         select=lambda e: e['ev']['op'] == 'mutate',
         end_walks=((300, 7, 'mutate'), (5000, 10, 'mutate')),
